@@ -140,6 +140,10 @@ def get_unified_diff_hunks(lines, ignore_garbage=False):
     hunk_orig_i = 0
     hunk_modified_i = 0
 
+    # No lines have been processed yet (and none will be, if there are no
+    # lines at all).
+    line_num = 0
+
     # Go through each hunk of the diff, trying to find the number of lines
     # of context shown at the beginning of the hunk. This will usually be
     # upwards of 3 lines, but that's not a rule. It could be more, or fewer,
